@@ -216,7 +216,7 @@ func TestVerifC03(t *testing.T) {
 	// ---- A1: Close() between the reader's unregister and its inFlightDown
 	for _, batched := range []bool{false, true} {
 		name := fmt.Sprintf("A1/close-between-unregister-and-inflightdown/batched=%v", batched)
-		synctest.Test(t, func(t *testing.T) {
+		verifsim.Bubble(t, func(t *testing.T) {
 			q := 1
 			if batched {
 				q = 2
@@ -245,7 +245,7 @@ func TestVerifC03(t *testing.T) {
 	// ---- A2: the reader fails the client while a sender sits between register and write
 	for _, kind := range []string{"get", "put"} {
 		name := "A2/reader-fails-between-register-and-write/" + kind
-		synctest.Test(t, func(t *testing.T) {
+		verifsim.Bubble(t, func(t *testing.T) {
 			env := newRCEnv(rcOpts{queueSize: 1})
 			g := env.gates.arm("send.registered")
 			c1 := env.newCall("a2", kind, false)
@@ -263,7 +263,7 @@ func TestVerifC03(t *testing.T) {
 	}
 	// ---- A3: Close() runs completely between a sender's failed write and its unregister
 	name := "A3/close-between-failed-write-and-unregister"
-	synctest.Test(t, func(t *testing.T) {
+	verifsim.Bubble(t, func(t *testing.T) {
 		var env *rcEnv
 		hook := func(op verifsim.Op) *verifsim.Fault {
 			if op.Kind == verifsim.OpWrite && !bytes.HasPrefix(op.Data, []byte("HBas")) {
@@ -290,7 +290,7 @@ func TestVerifC03(t *testing.T) {
 	// sender goes on (registers, writes on the still open socket), then Close() finishes. The call must be completed.
 	for _, kind := range []string{"get", "put", "get-batched"} {
 		name := "A4/sender-registers-while-close-is-inside-conn.Close/" + kind
-		synctest.Test(t, func(t *testing.T) {
+		verifsim.Bubble(t, func(t *testing.T) {
 			closeHeld, closeGo := make(chan struct{}), make(chan struct{})
 			var holdClose atomic.Bool
 			hook := func(op verifsim.Op) *verifsim.Fault {
@@ -392,18 +392,18 @@ func TestVerifC03(t *testing.T) {
 			continue
 		}
 		var K int
-		synctest.Test(t, func(t *testing.T) { K = c03run(o, "B/"+w.name+"/fault-free", w, c03fault{}, 0, 0) })
+		verifsim.Bubble(t, func(t *testing.T) { K = c03run(o, "B/"+w.name+"/fault-free", w, c03fault{}, 0, 0) })
 		rep.Distinct++
 		for k := 1; k <= K; k++ {
 			for _, fl := range flavours {
 				nm := fmt.Sprintf("B/%s/k=%d/%s", w.name, k, fl)
-				synctest.Test(t, func(t *testing.T) { c03run(o, nm, w, c03fault{k: k, flavour: fl}, 0, 0) })
+				verifsim.Bubble(t, func(t *testing.T) { c03run(o, nm, w, c03fault{k: k, flavour: fl}, 0, 0) })
 				rep.Distinct++
 			}
 		}
 		for cut := 1; cut <= 3; cut++ {
 			nm := fmt.Sprintf("B/%s/server-cuts-response-%d-mid-frame", w.name, cut)
-			synctest.Test(t, func(t *testing.T) { c03run(o, nm, w, c03fault{}, cut, 0) })
+			verifsim.Bubble(t, func(t *testing.T) { c03run(o, nm, w, c03fault{}, cut, 0) })
 			rep.Distinct++
 		}
 	}
@@ -430,7 +430,7 @@ func TestVerifC03(t *testing.T) {
 	for _, d := range deaths {
 		for _, q := range []int{1, 3} {
 			nm := fmt.Sprintf("C/%s/q=%d", d.name, q)
-			synctest.Test(t, func(t *testing.T) {
+			verifsim.Bubble(t, func(t *testing.T) {
 				first := true
 				env := newRCEnv(rcOpts{queueSize: q, flushInterval: time.Millisecond, readTimeout: time.Second,
 					auto: func(e *rcEnv, req *verifsim.Request) {
@@ -464,7 +464,7 @@ func TestVerifC03(t *testing.T) {
 		f := c03fault{k: 1 + rng.Intn(40), flavour: flavours[rng.Intn(len(flavours))]}
 		nm := fmt.Sprintf("D/%d/%s/k=%d/%s", i, w.name, f.k, f.flavour)
 		js := rng.Int63() | 1
-		synctest.Test(t, func(t *testing.T) { c03run(o, nm, w, f, 0, js) })
+		verifsim.Bubble(t, func(t *testing.T) { c03run(o, nm, w, f, 0, js) })
 		rep.Distinct++
 	}
 }
